@@ -25,6 +25,23 @@ Theorem C32_auto_part_size :
 Proof. exact cps_correct. Qed.
 Print Assumptions C32_auto_part_size.
 
+(* The clause "automatic part sizing keeps n within the 3999-part limit" for EVERY size is false for
+   the code as it is: beyond partsLimit * 512 KiB (about 1.95 GiB) the automatic size stays at
+   512 KiB, initUpload checks the limit only for small files, and the upload proceeds with more than
+   3999 parts; and for a stream of unknown size there is no sizing and no check at all, so any stream
+   longer than 3999 parts of the configured size gets part numbers >= 3999 (with C32_big: n = number
+   of parts read).  What holds is C32_auto_part_size (the premise total <= partsLimit * 512 KiB). *)
+Theorem C32_parts_limit_refuted :
+  (exists total ps tp, upload_plan true c_defaultPartSize total = Plan ps true tp /\ c_partsLimit < tp) /\
+  (forall auto cfg, check_part_size_go cfg = 0 -> upload_plan auto cfg (-1) = Plan cfg true (-1)).
+Proof.
+  split.
+  - exists (c_partsLimit * c_MaximumPartSize + 1), c_MaximumPartSize, (c_partsLimit + 1). vm_compute. split; reflexivity.
+  - intros auto cfg H. unfold upload_plan. replace (auto && (-1 >? 0)) with false by (destruct auto; reflexivity).
+    rewrite H. reflexivity.
+Qed.
+Print Assumptions C32_parts_limit_refuted.
+
 (* what Uploader.Upload decides before entering a loop *)
 Theorem C32_plan :
   forall auto cfg total ps big tp,
@@ -85,6 +102,17 @@ Proof. exact (big_upload_correct H). Qed.
 End WithMD5.
 Print Assumptions C32_small.
 Print Assumptions C32_big.
+
+(* C32_big is not vacuous: for every source and every thread count >= 1 some schedule ends the
+   upload (one worker, every request answered true). *)
+Theorem C32_big_terminates :
+  forall ps threads tp (src : list Z), 0 < ps -> 1 <= threads ->
+    exists evs, b_terminal (b_run blen ps threads (b_init (chunks (Z.to_nat ps) src) tp) evs) = true.
+Proof.
+  intros ps threads tp src Hps Ht.
+  exact (big_terminal_reachable (list Z) blen ps threads Ht _ tp (chunks_wf_parts_Z ps src Hps)).
+Qed.
+Print Assumptions C32_big_terminates.
 
 (* file_total_parts: every request carries the initial value (-1 only for unknown sizes) or
    the true count; once the count is known (state s1) it is the true count and every request
